@@ -15,6 +15,13 @@
 (*           is running (between player_turn_ended and player_turn_started, before the first turn, or   *)
 (*           with no game): it must be refused.                                                         *)
 (*   evs     ghost: the player_<var> events of the last step as <<var, value, prev, change, player>>    *)
+(*   tevs    the same for the player variables that hold strings / None / ints (P[p].tv): values are     *)
+(*           written "i:<int>", "s:<string>", "n" (None), "-" (no such variable: reads as 0); change is  *)
+(*           "i:<int>" when both values are numbers, else "T"/"F" (different / same)                     *)
+(*   vol.stp game mode gm2 was asked to stop and a handler of its mode_gm2_stopping queue event holds    *)
+(*           the stop: the mode and its devices stay loaded (attached to the same player) until Release; *)
+(*           a ball that ends meanwhile WAITS (ph = "ending": gm1 gone, gm2 still attached to cur, still *)
+(*           cur's turn) and goes on to the next ball / player / game over at Release                    *)
 (*   nops/nadv/ngames/bops  budgets (bops: steps within the current ball or pause between turns)         *)
 (* machine modelled (drivers/c11.py write_machine): gm1 starts on ball_starting (c1 counter goal 3      *)
 (* disable_on_complete, a1 accrual of 2, q1 sequence of 2 reset+disable on complete, shots 1/2 in a     *)
@@ -26,17 +33,19 @@ CONSTANTS Configs,      \* records [bpg |-> balls per game, maxp |-> max players
           Acts,         \* enabled action families (partitions the exhaustive runs)
           MaxP, MaxOps, MaxAdv, MaxGames, MaxEB,
           MaxBallOps, MaxReq,   \* per ball / per pause between turns (shape the generated schedules)
-          Deviations    \* named code-as-is deviations (none needed so far)
-VARIABLES cfg, ph, np, cur, P, bound, vol, ending, evs, act, nops, nadv, ngames, bops
-vars == <<cfg, ph, np, cur, P, bound, vol, ending, evs, act, nops, nadv, ngames, bops>>
+          Deviations    \* named code-as-is deviations (used by the Trace spec only: "LateModeStart")
+VARIABLES cfg, ph, np, cur, P, bound, vol, ending, evs, tevs, act, nops, nadv, ngames, bops
+vars == <<cfg, ph, np, cur, P, bound, vol, ending, evs, tevs, act, nops, nadv, ngames, bops>>
 Players == 1..MaxP
 NoLB  == [x |-> FALSE, v |-> 0, en |-> FALSE, done |-> FALSE]
 NewLB == [x |-> TRUE, v |-> 0, en |-> TRUE, done |-> FALSE]
 NoP   == [ex |-> FALSE, score |-> 0, bonus |-> 0, ball |-> 0, eb |-> 0, c1 |-> NoLB, a1 |-> NoLB, q1 |-> NoLB, c2 |-> NoLB,
-          s |-> <<0, 0, 0>>, e |-> <<-1, -1>>, ach |-> "none", tick |-> -1, rs |-> FALSE, xv |-> 0]
-InitP == [NoP EXCEPT !.ex = TRUE, !.bonus = 2]          \* configured initial values (player_vars: bonus = 2)
-Vol0  == [c3 |-> NoLB, e3 |-> FALSE, trun |-> FALSE, tpause |-> 0]
-VolFresh == [c3 |-> NewLB, e3 |-> TRUE, trun |-> FALSE, tpause |-> 0]
+          s |-> <<0, 0, 0>>, e |-> <<-1, -1>>, ach |-> "none", tick |-> -1, rs |-> FALSE, xv |-> 0,
+          tv |-> [ini |-> "-", sel |-> "-"]]
+\* configured initial values (player_vars: bonus = 2, ini = "" (a string variable))
+InitP == [NoP EXCEPT !.ex = TRUE, !.bonus = 2, !.tv.ini = "s:"]
+Vol0  == [c3 |-> NoLB, e3 |-> FALSE, trun |-> FALSE, tpause |-> 0, stp |-> FALSE]
+VolFresh == [c3 |-> NewLB, e3 |-> TRUE, trun |-> FALSE, tpause |-> 0, stp |-> FALSE]
 NoBound == [gm1 |-> 0, gm2 |-> 0]
 AchStates == {"disabled", "enabled", "started", "stopped", "completed"}
 \* ---- player variables that post player_<var> events (ints; a missing variable reads as 0) -------------------
@@ -50,6 +59,16 @@ Val(r, var) == CASE var = "score" -> r.score [] var = "bonus" -> r.bonus [] var 
                  [] var = "gm2_t2_tick" -> (IF r.tick = -1 THEN 0 ELSE r.tick)
 ChangeEvs(A, B) == { <<var, Val(B[p], var), Val(A[p], var), Val(B[p], var) - Val(A[p], var), p>> :
                      <<p, var>> \in {x \in Players \X IntVars : A[x[1]].ex /\ B[x[1]].ex /\ Val(A[x[1]], x[2]) # Val(B[x[1]], x[2])} }
+\* ---- player variables holding strings / None / small ints (player.py __setattr__) ----------------------------------
+TVars == {"ini", "sel"}
+TVals == {"i:0", "i:1", "s:", "s:A", "n"}
+TVRead(x) == IF x = "-" THEN "i:0" ELSE x             \* a variable that does not exist reads as 0
+IsI(x) == x \in {"i:0", "i:1"}
+IntOf(x) == IF x = "i:1" THEN 1 ELSE 0
+EncI(k) == CASE k = -1 -> "i:-1" [] k = 0 -> "i:0" [] k = 1 -> "i:1"
+\* change = value - prev_value where that is defined, otherwise whether the two differ
+Chg(old, new) == IF IsI(old) /\ IsI(new) THEN EncI(IntOf(new) - IntOf(old)) ELSE IF old # new THEN "T" ELSE "F"
+Truthy(c) == c \notin {"i:0", "F"}
 \* ---- device load at mode start: look the state up in the player, create it on first use ---------------------
 LoadG1(r) == [r EXCEPT !.c1 = IF @.x THEN @ ELSE NewLB, !.a1 = IF @.x THEN @ ELSE NewLB, !.q1 = IF @.x THEN @ ELSE NewLB,
                        !.e = <<IF @[1] = -1 THEN 1 ELSE @[1], IF @[2] = -1 THEN 0 ELSE @[2]>>,
@@ -65,7 +84,7 @@ Live == LET b1 == bound.gm1  b2 == bound.gm2 IN
          s |-> <<IF b1 = 0 THEN 0 ELSE P[b1].s[1], IF b1 = 0 THEN 0 ELSE P[b1].s[2], IF b2 = 0 THEN 0 ELSE P[b2].s[3]>>,
          e |-> <<b1 # 0 /\ P[b1].e[1] = 1, b1 # 0 /\ P[b1].e[2] = 1, vol.e3>>,
          ach |-> IF b1 = 0 THEN "none" ELSE P[b1].ach,
-         tick |-> IF b2 = 0 THEN -1 ELSE P[b2].tick, trun |-> vol.trun]
+         tick |-> IF b2 = 0 THEN -1 ELSE P[b2].tick, trun |-> vol.trun, stp |-> vol.stp]
 \* ---- logic block transitions (as validated by specs/LogicBlocks) ---------------------------------------------
 Bit(k) == k + 1
 HasBit(v, k) == (v \div Bit(k)) % 2 = 1
@@ -87,23 +106,33 @@ AchF(kind, st) ==
       [] kind = "disable" -> IF st \in {"enabled", "stopped"} THEN "disabled" ELSE st
 \* ---- steps ------------------------------------------------------------------------------------------------------
 Init == /\ cfg \in Configs /\ ph = "idle" /\ np = 0 /\ cur = 0 /\ P = [p \in Players |-> NoP] /\ bound = NoBound /\ vol = Vol0
-        /\ ending = FALSE /\ evs = {} /\ act = [op |-> "init"] /\ nops = 0 /\ nadv = 0 /\ ngames = 0 /\ bops = 0
-Step(a, P2, b2, v2) == P' = P2 /\ bound' = b2 /\ vol' = v2 /\ evs' = ChangeEvs(P, P2) /\ act' = a
+        /\ ending = FALSE /\ evs = {} /\ tevs = {} /\ act = [op |-> "init"] /\ nops = 0 /\ nadv = 0 /\ ngames = 0 /\ bops = 0
+Step(a, P2, b2, v2) == P' = P2 /\ bound' = b2 /\ vol' = v2 /\ evs' = ChangeEvs(P, P2) /\ tevs' = {} /\ act' = a
 Me == P[cur]
 SetMe(r) == [P EXCEPT ![cur] = r]
-Op(fam) == /\ fam \in Acts /\ ph = "ball" /\ nops < MaxOps /\ nops' = nops + 1 /\ bops < MaxBallOps /\ bops' = bops + 1
-           /\ UNCHANGED <<cfg, ph, np, cur, ending, nadv, ngames>>
+OpIn(fam, phs) == /\ fam \in Acts /\ ph \in phs /\ nops < MaxOps /\ nops' = nops + 1 /\ bops < MaxBallOps /\ bops' = bops + 1
+                  /\ UNCHANGED <<cfg, ph, np, cur, ending, nadv, ngames>>
+Op(fam) == OpIn(fam, {"ball"})
+\* what still works while the ended ball waits for gm2's held stop: gm2 and its devices, the clock, plain variable writes
+OpE(fam) == OpIn(fam, {"ball", "ending"})
 \* write through a device of mode m into the player record it is attached to
 Via(m, f(_)) == [P EXCEPT ![bound[m]] = f(@)]
 
 NewGame == /\ ph = "idle" /\ ngames < MaxGames /\ ngames' = ngames + 1 /\ bops' = 0
            /\ ph' = "between" /\ np' = 1 /\ cur' = 1 /\ ending' = FALSE
-           /\ P' = [p \in Players |-> IF p = 1 THEN InitP ELSE NoP] /\ bound' = NoBound /\ vol' = Vol0 /\ evs' = {}
+           /\ P' = [p \in Players |-> IF p = 1 THEN InitP ELSE NoP] /\ bound' = NoBound /\ vol' = Vol0 /\ evs' = {} /\ tevs' = {}
            /\ act' = [op |-> "newgame"] /\ UNCHANGED <<cfg, nops, nadv>>
 \* a start request for a game mode while no player's turn is running is refused: nothing changes
 ModeReq(m) == /\ "modereq" \in Acts /\ ph \in {"idle", "between"} /\ nops < MaxOps /\ nops' = nops + 1 /\ bops < MaxReq /\ bops' = bops + 1
               /\ Step([op |-> "modereq", m |-> m], P, bound, vol)
               /\ UNCHANGED <<cfg, ph, np, cur, ending, nadv, ngames>>
+\* a start request for game mode m while the ended ball waits for the held stop of gm2 (it is still cur's turn).  The
+\* statement does not say whether it is granted (run: m is running afterwards).  If it is, m's devices show cur's state -
+\* and m lets go of cur like every other game mode before anybody else is up (Release -> EndOfBall)
+LateReq(m, run) == /\ OpIn("late", {"ending"}) /\ (bound[m] # 0 => run)
+                   /\ LET a == [op |-> "latereq", m |-> m, run |-> run] IN
+                      IF run /\ bound[m] = 0 THEN Step(a, SetMe(LoadG1(Me)), [bound EXCEPT ![m] = cur], vol)
+                      ELSE Step(a, P, bound, vol)
 TurnStart == /\ ph = "between" /\ ph' = "ball" /\ bops' = 0
              /\ Step([op |-> "turnstart"], SetMe(StartBall([Me EXCEPT !.ball = @ + 1])),
                      [gm1 |-> cur, gm2 |-> IF Me.rs THEN cur ELSE 0], IF Me.rs THEN VolFresh ELSE Vol0)
@@ -112,14 +141,14 @@ AddPlayer == /\ "addplayer" \in Acts /\ ph = "ball" /\ nops < MaxOps /\ nops' = 
              /\ LET ok == Me.ball = 1 /\ np < cfg.maxp /\ ~ending IN
                 /\ np' = IF ok THEN np + 1 ELSE np
                 /\ P' = IF ok THEN [P EXCEPT ![np + 1] = InitP] ELSE P
-             /\ evs' = {} /\ act' = [op |-> "addplayer"]
+             /\ evs' = {} /\ tevs' = {} /\ act' = [op |-> "addplayer"]
              /\ UNCHANGED <<cfg, ph, cur, bound, vol, ending, nadv, ngames, bops>>
 Score == Op("score") /\ Step([op |-> "score"], SetMe([Me EXCEPT !.score = @ + 100]), bound, vol)
 SetVar(kind) == Op("var") /\ Step([op |-> "var", kind |-> kind],
                                  SetMe([Me EXCEPT !.bonus = IF kind = "set" THEN 5 ELSE @ + 1]), bound, vol)
 AwardEB == Op("eb") /\ Me.eb < MaxEB /\ Step([op |-> "awardeb"], SetMe([Me EXCEPT !.eb = @ + 1]), bound, vol)
 LB(dev, kind, k) ==
-    /\ Op("lb") /\ (dev \in {"a1", "q1"} /\ kind = "hit" => k \in {0, 1}) /\ (~(dev \in {"a1", "q1"} /\ kind = "hit") => k = 0)
+    /\ OpE("lb") /\ (dev \in {"a1", "q1"} /\ kind = "hit" => k \in {0, 1}) /\ (~(dev \in {"a1", "q1"} /\ kind = "hit") => k = 0)
     /\ LET m == ModeOf(dev)
            a == [op |-> "lb", dev |-> dev, kind |-> kind, k |-> k]
            F(r) == CASE kind = "hit" -> HitF(dev, r, k) [] kind = "enable" -> [r EXCEPT !.en = TRUE]
@@ -133,7 +162,7 @@ LB(dev, kind, k) ==
                    P2 == IF kind = "hit" /\ P[bound[m]][dev].en THEN [P1 EXCEPT ![cur].score = @ + pts] ELSE P1
                IN Step(a, P2, bound, vol)
 Shot(i, kind) ==
-    /\ Op("shot") /\ i \in 1..3
+    /\ OpE("shot") /\ i \in 1..3
     /\ LET m == IF i = 3 THEN "gm2" ELSE "gm1"
            a == [op |-> "shot", i |-> i, kind |-> kind]
            b == bound[m]
@@ -148,17 +177,31 @@ Rotate == /\ Op("shot")
           /\ LET Sw(r) == [r EXCEPT !.s = <<@[2], @[1], @[3]>>] IN Step([op |-> "rotate"], Via("gm1", Sw), bound, vol)
 Ach(kind, ns) == /\ Op("ach") /\ ns \in AchStates
                  /\ LET W(r) == [r EXCEPT !.ach = ns] IN Step([op |-> "ach", kind |-> kind], Via("gm1", W), bound, vol)
-ModeStart == /\ Op("mode")
+ModeStart == /\ OpE("mode")
              /\ IF bound.gm2 # 0 THEN Step([op |-> "modestart"], P, bound, vol)
                 ELSE Step([op |-> "modestart"], SetMe(LoadG2(Me)), [bound EXCEPT !.gm2 = cur], VolFresh)
-ModeStop == Op("mode") /\ Step([op |-> "modestop"], P, [bound EXCEPT !.gm2 = 0], Vol0)
-Timer(kind) == /\ Op("timer")
+\* stop request for gm2; h: a handler holds the mode_gm2_stopping queue event (the stop completes at Release)
+ModeStop(h) == /\ OpE("mode") /\ (h => "hold" \in Acts /\ bound.gm2 # 0 /\ ~vol.stp)
+               /\ LET a == [op |-> "modestop", h |-> h] IN
+                  IF bound.gm2 = 0 \/ vol.stp THEN Step(a, P, bound, vol)
+                  ELSE IF h THEN Step(a, P, bound, [vol EXCEPT !.stp = TRUE])
+                  ELSE Step(a, P, [bound EXCEPT !.gm2 = 0], Vol0)
+\* a write to a string/None/int player variable of player q (the public Player API: player[var] = val)
+SetTV(q, var, val) ==
+    /\ OpE("tv") /\ q \in 1..np /\ var \in TVars /\ val \in TVals
+    /\ LET cell == P[q].tv[var]
+           prev == TVRead(cell)
+           chg == Chg(prev, val)
+           posted == (Truthy(chg) \/ cell = "-") /\ val # "n"      \* only ints, floats and strings are announced
+       IN /\ P' = [P EXCEPT ![q].tv[var] = val] /\ tevs' = IF posted THEN {<<var, val, prev, chg, q>>} ELSE {}
+          /\ evs' = {} /\ act' = [op |-> "settv", q |-> q, var |-> var, val |-> val] /\ UNCHANGED <<bound, vol>>
+Timer(kind) == /\ OpE("timer")
                /\ LET v2 == CASE kind = "start" -> IF vol.trun THEN vol ELSE [vol EXCEPT !.trun = TRUE, !.tpause = 0]
                               [] kind = "stop" -> [vol EXCEPT !.trun = FALSE, !.tpause = 0]
                               [] kind = "pause" -> [vol EXCEPT !.trun = FALSE, !.tpause = 2]
                   IN Step([op |-> "timer", kind |-> kind], P, bound, IF bound.gm2 = 0 THEN vol ELSE v2)
 \* one second passes: a running timer ticks (into the player its mode belongs to), a timed pause runs out
-Adv == /\ "timer" \in Acts /\ ph = "ball" /\ nadv < MaxAdv /\ nadv' = nadv + 1 /\ bops < MaxBallOps /\ bops' = bops + 1
+Adv == /\ "timer" \in Acts /\ ph \in {"ball", "ending"} /\ nadv < MaxAdv /\ nadv' = nadv + 1 /\ bops < MaxBallOps /\ bops' = bops + 1
        /\ LET T(r) == [r EXCEPT !.tick = @ + 1]
               v2 == IF vol.tpause > 0 THEN [vol EXCEPT !.tpause = @ - 1, !.trun = (vol.tpause = 1)] ELSE vol
           IN Step([op |-> "adv"], IF vol.trun /\ bound.gm2 # 0 THEN Via("gm2", T) ELSE P, bound, v2)
@@ -170,17 +213,33 @@ EndOfBall(a, endNow) ==
     IF me.eb > 0 /\ ~endNow     \* a pending extra ball is not played once end_game was requested (fix 88b41f2)
     THEN /\ Step(a, SetMe(StartBall([me EXCEPT !.eb = @ - 1])), [gm1 |-> cur, gm2 |-> IF me.rs THEN cur ELSE 0],
                  IF me.rs THEN VolFresh ELSE Vol0)
-         /\ ending' = endNow /\ UNCHANGED <<ph, np, cur>>
+         /\ ending' = endNow /\ ph' = "ball" /\ UNCHANGED <<np, cur>>
     ELSE IF endNow \/ (me.ball >= cfg.bpg /\ cur = np)
-    THEN /\ P' = [p \in Players |-> NoP] /\ bound' = NoBound /\ vol' = Vol0 /\ evs' = {} /\ act' = a
+    THEN /\ P' = [p \in Players |-> NoP] /\ bound' = NoBound /\ vol' = Vol0 /\ evs' = {} /\ tevs' = {} /\ act' = a
          /\ ph' = "idle" /\ np' = 0 /\ cur' = 0 /\ ending' = FALSE
     ELSE /\ Step(a, SetMe(me), NoBound, Vol0)
          /\ ph' = "between" /\ cur' = (IF cur < np THEN cur + 1 ELSE 1) /\ ending' = endNow /\ UNCHANGED np
-BallEnd == ph = "ball" /\ EndOfBall([op |-> "ballend"], ending) /\ bops' = 0 /\ UNCHANGED <<cfg, nops, nadv, ngames>>
-EndGame == /\ "endgame" \in Acts /\ ph = "ball" /\ bops < MaxBallOps /\ bops' = 0 /\ EndOfBall([op |-> "endgame"], TRUE)
+\* the ball ends while the stop of gm2 is held: gm1 stops, gm2 is on the player's restart list, and the end of the ball
+\* waits for gm2 - nobody else is up before gm2 let go of the player
+WaitForStop(a, endNow) == /\ Step(a, SetMe([Me EXCEPT !.rs = TRUE]), [gm1 |-> 0, gm2 |-> cur], [vol EXCEPT !.stp = TRUE])
+                          /\ ph' = "ending" /\ ending' = endNow /\ UNCHANGED <<np, cur>>
+\* h: gm2 is running and a handler holds the stop that the end of the ball itself requests
+BallEnd(h) == /\ ph = "ball" /\ (h => "hold" \in Acts /\ bound.gm2 # 0 /\ ~vol.stp)
+              /\ LET a == [op |-> "ballend", h |-> h] IN IF h \/ vol.stp THEN WaitForStop(a, ending) ELSE EndOfBall(a, ending)
+              /\ bops' = 0 /\ UNCHANGED <<cfg, nops, nadv, ngames>>
+EndGame == /\ "endgame" \in Acts /\ ph = "ball" /\ bops < MaxBallOps /\ bops' = 0
+           /\ LET a == [op |-> "endgame"] IN IF vol.stp THEN WaitForStop(a, TRUE) ELSE EndOfBall(a, TRUE)
            /\ UNCHANGED <<cfg, nops, nadv, ngames>>
-Next == \/ NewGame \/ TurnStart \/ AddPlayer \/ Score \/ AwardEB \/ Rotate \/ ModeStart \/ ModeStop \/ Adv \/ BallEnd \/ EndGame
-        \/ \E m \in {"gm1", "gm2"} : ModeReq(m)
+\* the handler lets the held stop go: gm2 stops; a ball end that waited for it goes on
+Release == /\ vol.stp /\ ph \in {"ball", "ending"}
+           /\ LET a == [op |-> "release"] IN
+              IF ph = "ball" THEN Step(a, P, [bound EXCEPT !.gm2 = 0], Vol0) /\ UNCHANGED <<ph, np, cur, ending, bops>>
+              ELSE EndOfBall(a, ending) /\ bops' = 0
+           /\ UNCHANGED <<cfg, nops, nadv, ngames>>
+Next == \/ NewGame \/ TurnStart \/ AddPlayer \/ Score \/ AwardEB \/ Rotate \/ ModeStart \/ Adv \/ EndGame \/ Release
+        \/ \E h \in BOOLEAN : ModeStop(h) \/ BallEnd(h)
+        \/ \E q \in Players, var \in TVars, val \in TVals : SetTV(q, var, val)
+        \/ \E m \in {"gm1", "gm2"} : ModeReq(m) \/ \E run \in BOOLEAN : LateReq(m, run)
         \/ \E k \in {"set", "add"} : SetVar(k)
         \/ \E d \in {"c1", "a1", "q1", "c2", "c3"}, k \in {0, 1} : LB(d, "hit", k)
         \/ \E kind \in {"enable", "disable"} : LB("c1", kind, 0)
@@ -190,13 +249,20 @@ Next == \/ NewGame \/ TurnStart \/ AddPlayer \/ Score \/ AwardEB \/ Rotate \/ Mo
 Spec == Init /\ [][Next]_vars
 \* ---- statement of C11 -------------------------------------------------------------------------------------------
 \* devices are attached to the current player's state or to nobody; between turns to nobody
+\* (while an ended ball waits for the held stop of gm2 it is still cur's turn: gm1 is gone, gm2 still shows cur's state)
 Attached == /\ \A m \in {"gm1", "gm2"} : bound[m] \in {0, cur}
-            /\ (ph # "ball" => bound = NoBound /\ vol = Vol0)
+            /\ (ph \in {"idle", "between"} => bound = NoBound /\ vol = Vol0)
             /\ (ph = "ball" => bound.gm1 = cur)
+            /\ (ph = "ending" => bound.gm2 = cur /\ vol.stp)
+            /\ (vol.stp => bound.gm2 = cur)
 \* every step taken while cur = p leaves what the other players own untouched
-Frame == [][ \A q \in Players : (q # cur /\ P[q].ex /\ ph' # "idle") => P'[q] = P[q] ]_vars
+\* (except the one variable that an explicit write to that player's variable names)
+Frame == [][ \A q \in Players : (q # cur /\ P[q].ex /\ ph' # "idle") =>
+                \/ P'[q] = P[q]
+                \/ act'.op = "settv" /\ act'.q = q /\ P'[q] = [P[q] EXCEPT !.tv[act'.var] = act'.val] ]_vars
 \* when a ball starts for p the devices show exactly what p owned before (configured initial values on first use)
 BallStarts == (act'.op = "turnstart") \/ (act'.op \in {"ballend", "endgame"} /\ ph' = "ball")
+              \/ (act'.op = "release" /\ ph = "ending" /\ ph' = "ball")
 Restore == [][ BallStarts =>
                LET p == cur' old == P[p] IN
                /\ bound'.gm1 = p /\ bound'.gm2 \in {0, p}
@@ -208,7 +274,7 @@ Restore == [][ BallStarts =>
                /\ (bound'.gm2 = p => /\ Live'.c2 = (IF old.c2.x THEN old.c2 ELSE NewLB) /\ Live'.s[3] = old.s[3]
                                       /\ Live'.tick = (IF old.tick = -1 THEN 0 ELSE old.tick)
                                       /\ Live'.c3 = NewLB /\ Live'.e[3])       \* not persisted: as configured
-               /\ P'[p].score = old.score /\ P'[p].bonus = old.bonus ]_vars
+               /\ P'[p].score = old.score /\ P'[p].bonus = old.bonus /\ P'[p].tv = old.tv ]_vars
 \* a new game (and a player joining) starts from the configured initial values; nothing survives a game
 FreshGame == /\ [][ act'.op = "newgame" => P' = [p \in Players |-> IF p = 1 THEN InitP ELSE NoP] /\ bound' = NoBound ]_vars
              /\ [][ (act'.op = "addplayer" /\ np' # np) => P'[np'] = InitP ]_vars
@@ -218,7 +284,18 @@ VarEvent == [][ act'.op \notin {"newgame", "addplayer"} /\ ph' # "idle" =>
                 /\ \A p \in Players, var \in IntVars : (P[p].ex /\ P'[p].ex /\ Val(P'[p], var) # Val(P[p], var)) =>
                       Cardinality({x \in evs' : x[1] = var /\ x[5] = p}) = 1
                 /\ \A x \in evs' : /\ x[4] = x[2] - x[3] /\ x[4] # 0 /\ x[5] \in 1..np'
-                                   /\ x[2] = Val(P'[x[5]], x[1]) /\ x[3] = Val(P[x[5]], x[1]) ]_vars
-TypeOK == /\ ph \in {"idle", "between", "ball"} /\ np \in 0..MaxP /\ cur \in 0..MaxP /\ (ph # "idle" => cur \in 1..np)
+                                   /\ x[2] = Val(P'[x[5]], x[1]) /\ x[3] = Val(P[x[5]], x[1])
+                \* string / None / int valued variables: a change to a value of a simple type posts exactly one event; every
+                \* event carries what the variable reads now, what it read before (None and "" are values, a missing variable
+                \* reads 0), their difference resp. whether they differ, and the owner; only creating a variable may post an
+                \* event without a change
+                /\ \A p \in Players, var \in TVars :
+                      LET a == TVRead(P[p].tv[var])  b == TVRead(P'[p].tv[var]) IN
+                      (P[p].ex /\ P'[p].ex /\ a # b /\ b # "n") => Cardinality({x \in tevs' : x[1] = var /\ x[5] = p}) = 1
+                /\ \A x \in tevs' : /\ x[5] \in 1..np' /\ x[1] \in TVars
+                                    /\ x[2] = TVRead(P'[x[5]].tv[x[1]]) /\ x[3] = TVRead(P[x[5]].tv[x[1]])
+                                    /\ x[4] = Chg(x[3], x[2])
+                                    /\ (Truthy(x[4]) \/ P[x[5]].tv[x[1]] = "-") ]_vars
+TypeOK == /\ ph \in {"idle", "between", "ball", "ending"} /\ np \in 0..MaxP /\ cur \in 0..MaxP /\ (ph # "idle" => cur \in 1..np)
           /\ \A p \in Players : P[p].ex <=> p <= np
 =============================================================================
